@@ -44,7 +44,7 @@ def run(ctx):
         laydir = R.scratch(ctx, "lay")
         evaluations = 0
         hist = {}
-        for tag, args in [("lay", ["--seed", ctx.seed, "--count", 150 if quick else 4000]),
+        for tag, args in [("lay", ["--seed", ctx.seed, "--count", 150 if quick else 4000, "--full-difat"]),
                           ("laybig", ["--seed", ctx.seed + 1, "--count", 12 if quick else 200, "--big"])]:
             d = os.path.join(laydir, tag)
             os.makedirs(d, exist_ok=True)
